@@ -123,6 +123,7 @@ type bias struct {
 	pRange               int
 	pCond                int
 	pCancel              int
+	pOddURL int
 	pPoison              int
 	pPartial             int
 	pRespell             int
@@ -518,6 +519,9 @@ func (g *gen) op(b *bias, scn *Scenario) Op {
 		o.CCStyle = pick(g, "lines", "case")
 	}
 	o.EmptyMethod = o.Method == "" && g.chance(6)
+	if o.Method == "" && g.chance(b.pOddURL) {
+		o.OddURL = pick(g, "relative", "zone", "nohost", "spacehost", "opaque", "upper", "emptyurl")
+	}
 	o.Hdr = g.selHeaders(res, b)
 	o.Range = g.chance(b.pRange)
 	if g.chance(b.pCond) {
@@ -743,7 +747,7 @@ var profiles = map[string]func(b *bias, g *gen){
 	},
 	"faults": func(b *bias, g *gen) {
 		b.faultFree, b.storeFaults, b.diskFaults = false, 3, 2
-		b.pNetFault, b.pErrStatus, b.pCancel = 25, 15, 6
+		b.pNetFault, b.pErrStatus, b.pCancel, b.pOddURL = 25, 15, 6, 4
 		b.ops = [2]int{2, 8}
 		b.pSWR, b.pSIE, b.pValidator = 30, 20, 85
 		b.lifetimes = []int64{0, 1, 2, 5, 60}
@@ -765,6 +769,19 @@ var profiles = map[string]func(b *bias, g *gen){
 		b.pNoCache, b.pNoStore, b.pMustReval, b.pReqCC, b.pCancel = 1, 1, 2, 8, 8
 		b.backends = []string{"mem", "mem", "mem", "fs"}
 		b.resources = [2]int{1, 1}
+	},
+	"swrflood": func(b *bias, g *gen) {
+		// C20: many more stale serves in flight than any bound a transport may put on its background work, all
+		// against an origin that has stopped answering: no caller may be the one that waits
+		b.pSWR, b.pValidator, b.pVary = 100, 80, 0
+		b.lifetimes = []int64{1}
+		b.freshKinds = []int{9, 1, 0, 0}
+		b.clients, b.ops = [2]int{1, 2}, [2]int{20, 45}
+		b.pNoCache, b.pNoStore, b.pMustReval, b.pReqCC, b.pCancel, b.pUnsafe, b.pOtherMeth, b.pRange, b.pCond = 0, 0, 0, 0, 0, 0, 0, 0, 0
+		b.pNetFault, b.pErrStatus, b.pNoCacheQ, b.pPartial, b.pPoison = 0, 0, 0, 0, 0
+		b.backends = []string{"mem", "mem", "fs"}
+		b.resources = [2]int{1, 2}
+		b.thinks = []int64{0, 0, 0, 0, 1}
 	},
 	"varyflip": func(b *bias, g *gen) {
 		// C08: several variants of one URI whose Vary changes between replies, validated again and again: a full
@@ -845,7 +862,7 @@ var profiles = map[string]func(b *bias, g *gen){
 		b.ops = [2]int{2, 8}
 		b.pSWR, b.pSIE, b.pValidator, b.pVary = 35, 25, 85, 25
 		b.lifetimes = []int64{0, 1, 2, 5, 60}
-		b.pUnsafe, b.pReqCC = 8, 25
+		b.pUnsafe, b.pReqCC, b.pOddURL = 8, 25, 3
 		b.loggers = []string{"discard"}
 		b.backends = []string{"mem"}
 		b.sched = []string{"fifo", "random"}
@@ -891,6 +908,39 @@ func Gen(profile string, seed uint64, thorough bool) *Scenario {
 					p.LatNs = g.dur(pick(g, int64(1), 2, 3, 5, 8)) // a failure that takes its time
 				}
 			}
+		}
+	}
+	if profile == "swrflood" {
+		for i := range scn.Resources {
+			rs := &scn.Resources[i]
+			for len(rs.Plans) < 2 {
+				rs.Plans = append(rs.Plans, rs.Plans[0])
+			}
+			for k := range rs.Plans {
+				p := &rs.Plans[k]
+				p.Status, p.Fault, p.LatNs = 200, "", 0
+				p.CC = "max-age=1, stale-while-revalidate=" + pick(g, "600", "3600")
+				if k > 0 {
+					// every answer after the first one is withheld for good, or far beyond the run
+					if g.chance(50) {
+						p.Fault = "hang"
+					} else {
+						p.LatNs = g.dur(pick(g, int64(120), 600))
+					}
+				}
+			}
+		}
+		// the first request of every client fills the cache; the entry is stale before the second one
+		for c := range scn.Clients {
+			for k := range scn.Clients[c].Ops {
+				o := &scn.Clients[c].Ops[k]
+				if k == 1 {
+					o.ThinkNs = max(o.ThinkNs, g.dur(3))
+				}
+			}
+		}
+		if g.chance(60) {
+			scn.SWRSet, scn.SWRNs = true, g.dur(pick(g, int64(30), 60, 300)) // most of the revalidations are still waiting when the last request comes
 		}
 	}
 	if profile == "swr" || profile == "sie" {
